@@ -1,5 +1,5 @@
 """C20 — power-level helper predicates agree with the authorization rules (same spec model as C08) and the push condition."""
-import itertools
+import itertools, re
 from .. import dex as D, world as W, mir as M, authmodel as A
 from . import util as U
 from .C08 import load_model
@@ -160,6 +160,31 @@ def run(ctx):
             "SendMessage": "RoomPowerLevels::for_message(self, action.SendMessage.0)", "SendState": "RoomPowerLevels::for_state(self, action.SendState.0)",
             "TriggerNotification": "self.notifications.room"}
     ctx.check(got == want, rule2, f"{rule2}:for_action", w.where(f), bad_msg=f"{ {k: v for k, v in got.items() if want.get(k) != v} }")
+
+    # the two generic entry points hand each action to the helper of that action (with the same users), so they inherit the verdicts above
+    DISPATCH = {
+        "user_can_do": (["self", "u", "action"], {
+            "Ban": "user_can_ban(self, u)", "Unban": "user_can_unban(self, u)", "Invite": "user_can_invite(self, u)", "Kick": "user_can_kick(self, u)",
+            "RedactOwn": "user_can_redact_own_event(self, u)", "RedactOther": "user_can_redact_event_of_other(self, u)",
+            "SendMessage": "user_can_send_message(self, u, action.SendMessage.0)", "SendState": "user_can_send_state(self, u, action.SendState.0)",
+            "TriggerNotification": "user_can_trigger_room_notification(self, u)"}),
+        "user_can_do_to_user": (["self", "a", "t", "action"], {
+            "Ban": "user_can_ban_user(self, a, t)", "Unban": "user_can_unban_user(self, a, t)", "Invite": "user_can_invite(self, a)",
+            "Kick": "user_can_kick_user(self, a, t)", "ChangePowerLevel": "user_can_change_user_power_level(self, a, t)"}),
+    }
+    dexd = D.Dex(w.lookup, adt_discr=w.adt_discr, inline=lambda n: "{closure" in n)
+    for name, (args, want_d) in DISPATCH.items():
+        f = w.fn(H + name)
+        got_d = {}
+        for p in dexd.paths(f, [D.sym(x) for x in args]):
+            v = [a[2] for a, t in p.conds if a[0] == "variant" and t and D.show(a[1]) == "action"]
+            if v and p.kind == "ret":
+                got_d.setdefault(v[0], set()).add(re.sub(r"^(?:\w+::)*RoomPowerLevels::", "", D.show(p.ret)))
+        bad_d = {k: sorted(v) for k, v in got_d.items() if v != {want_d.get(k)}}
+        bad_d.update({k: ["<no arm>"] for k in want_d if k not in got_d})
+        ctx.check(not bad_d, rule2, f"{rule2}:{name}", w.where(f),
+                  bad_msg=f"{name} does not hand each action to the helper of that action: {bad_d} (the generic entry point then disagrees with the authorization "
+                          f"rules although the named helper agrees)")
 
     # ---- the context the push condition is evaluated in carries the same levels -----------------------------------------------------------
     fcx = [w.fn(k) for k in w.fn_index if k.endswith("for ruma_common::push::condition::PushConditionPowerLevelsCtx>::from") and "RoomPowerLevels>" in k]
